@@ -1,25 +1,48 @@
 From U2F Require Import Base.Prelude.
 From U2F Require Import Mark.Direction.
 
-(* reachability over single-substitution edges *)
-Inductive reach (E : list (str * str)) (S : list str) : str -> Prop :=
-| reach_base g : In g S -> reach E S g
-| reach_step a b : reach E S a -> In (a, b) E -> reach E S b.
+(* reachability over GSUB rules: a rule (inputs, output) makes its output reachable once ALL its inputs are
+   (single / alternate substitutions have one input, ligatures several).  Least fixed point, impredicatively encoded. *)
+Definition reach (E : list rule) (S : list str) (g : str) : Prop :=
+  forall P : str -> Prop,
+    (forall x, In x S -> P x) ->
+    (forall ins b, In (ins, b) E -> (forall a, In a ins -> P a) -> P b) -> P g.
+
+Lemma reach_base E S g : In g S -> reach E S g.
+Proof. intros H P HS _. apply HS. exact H. Qed.
+
+Lemma reach_step E S ins b : In (ins, b) E -> (forall a, In a ins -> reach E S a) -> reach E S b.
+Proof. intros Hin Hall P HS HE. apply (HE ins b Hin). intros a Ha. exact (Hall a Ha P HS HE). Qed.
+
+Lemma reach_step1 E S a b : reach E S a -> In ([a], b) E -> reach E S b.
+Proof. intros Ha Hin. apply (reach_step E S [a] b Hin). intros x [<-|[]]. exact Ha. Qed.
 
 Lemma reach_mono E E' S S' g :
   (forall e, In e E -> In e E') -> (forall x, In x S -> In x S') -> reach E S g -> reach E' S' g.
 Proof.
-  intros HE HS H. induction H as [g Hg|a b _ IH Hab]; [apply reach_base; auto|].
-  eapply reach_step; [exact IH|auto].
+  intros HE HS H. apply H.
+  - intros x Hx. apply reach_base. auto.
+  - intros ins b Hin Hall. apply (reach_step E' S' ins b); auto.
 Qed.
 
 Lemma reach_trans E S T g : (forall x, In x T -> reach E S x) -> reach E T g -> reach E S g.
 Proof.
-  intros HT H. induction H as [g Hg|a b _ IH Hab]; [auto|]. eapply reach_step; eauto.
+  intros HT H. apply H; [exact HT|]. intros ins b Hin Hall. apply (reach_step E S ins b); auto.
 Qed.
 
 Lemma reach_nil S g : reach [] S g <-> In g S.
-Proof. split; [|apply reach_base]. induction 1 as [g Hg|a b _ _ Hab]; [exact Hg|destruct Hab]. Qed.
+Proof. split; [|apply reach_base]. intro H. apply H; [auto|]. intros ins b []. Qed.
+
+(* the designspace rule substitutions as one-input rules *)
+Definition as_rules (X : list (str * str)) : list rule := map (fun e => ([fst e], snd e)) X.
+Lemma In_as_rules X a b : In ([a], b) (as_rules X) <-> In (a, b) X.
+Proof.
+  unfold as_rules. rewrite in_map_iff. split.
+  - intros [[a' b'] [E H]]. cbn in E. injection E as -> ->. exact H.
+  - intro H. exists (a, b). split; [reflexivity|exact H].
+Qed.
+Lemma as_rules_inv X ins b : In (ins, b) (as_rules X) -> exists a, ins = [a] /\ In (a, b) X.
+Proof. unfold as_rules. rewrite in_map_iff. intros [[a' b'] [E H]]. cbn in E. injection E as <- <-. exists a'. auto. Qed.
 
 Lemma In_union a b x : In x (union a b) <-> In x a \/ In x b.
 Proof.
@@ -55,10 +78,9 @@ Proof.
 Qed.
 
 Section ClassifyProofs.
-  Variable G : list (str * str).                   (* the GSUB table's single substitutions *)
+  Variable G : list rule.                          (* the GSUB table's rules: (inputs, output) *)
   Variable gclose : list str -> list str.
-  (* environment assumption: the subsetter's closure is edge reachability (GSUB tables of single / alternate
-     substitutions; a ligature needs all its components and is not an edge) *)
+  (* environment assumption: the subsetter's closure is reachability over the table's rules *)
   Hypothesis gclose_spec : forall S g, In g (gclose S) <-> reach G S g.
   Variable X : list (str * str).
 
@@ -74,7 +96,7 @@ Section ClassifyProofs.
     In g (classify_gsub gclose L N) <-> In g L \/ (reach G (union L (gclose N)) g /\ ~ reach G N g).
   Proof. unfold classify_gsub. rewrite In_union, In_minus, !gclose_spec. reflexivity. Qed.
 
-  Definition Gb (b : bool) : list (str * str) := if b then G else [].
+  Definition Gb (b : bool) : list rule := if b then G else [].
   Definition nprime (b : bool) (N : list str) : list str := if b then gclose N else N.
   Definition start (b : bool) (L N : list str) : list str := if b then classify_gsub gclose L N else L.
 
@@ -111,9 +133,9 @@ Section ClassifyProofs.
   Qed.
 
   (* ---------- soundness: nothing is classified that is not reachable from the cmap's glyphs ---------- *)
-  Definition sound_set (b : bool) (L N T : list str) : Prop := forall x, In x T -> reach (Gb b ++ X) (L ++ N) x.
+  Definition sound_set (b : bool) (L N T : list str) : Prop := forall x, In x T -> reach (Gb b ++ as_rules X) (L ++ N) x.
 
-  Lemma nprime_sound b L N y : In y (nprime b N) -> reach (Gb b ++ X) (L ++ N) y.
+  Lemma nprime_sound b L N y : In y (nprime b N) -> reach (Gb b ++ as_rules X) (L ++ N) y.
   Proof.
     unfold nprime, Gb. destruct b; intro H.
     - apply gclose_spec in H. eapply reach_mono; [| |exact H].
@@ -125,14 +147,14 @@ Section ClassifyProofs.
   Lemma round_sound b L N T : sound_set b L N T -> sound_set b L N (round gclose X b (nprime b N) T).
   Proof.
     intros HT x Hx.
-    assert (forall y, In y (union T (one_step X T)) -> reach (Gb b ++ X) (L ++ N) y) as H1.
+    assert (forall y, In y (union T (one_step X T)) -> reach (Gb b ++ as_rules X) (L ++ N) y) as H1.
     { intros y Hy. apply In_union in Hy. destruct Hy as [Hy|Hy]; [apply HT; exact Hy|].
-      apply In_one_step in Hy. destruct Hy as [a [Ha Hab]]. eapply reach_step; [apply HT; exact Ha|].
-      apply in_or_app. right. exact Hab. }
+      apply In_one_step in Hy. destruct Hy as [a [Ha Hab]]. eapply reach_step1; [apply HT; exact Ha|].
+      apply in_or_app. right. apply In_as_rules. exact Hab. }
     unfold round in Hx. destruct b.
     - apply In_union in Hx. destruct Hx as [Hx|Hx]; [apply H1; exact Hx|].
       apply In_minus in Hx. destruct Hx as [Hx _]. apply gclose_spec in Hx.
-      apply reach_mono with (E' := Gb true ++ X) (S' := union (union T (one_step X T)) (nprime true N)) in Hx;
+      apply reach_mono with (E' := Gb true ++ as_rules X) (S' := union (union T (one_step X T)) (nprime true N)) in Hx;
         [|intros e He; apply in_or_app; left; exact He|auto].
       eapply reach_trans; [|exact Hx]. intros y Hy. apply In_union in Hy. destruct Hy as [Hy|Hy];
         [apply H1; exact Hy|apply nprime_sound; exact Hy].
@@ -144,7 +166,7 @@ Section ClassifyProofs.
     intros x Hx. unfold start in Hx. destruct b.
     - apply In_classify_gsub in Hx. destruct Hx as [Hx|[Hx _]].
       + apply reach_base. apply in_or_app. left. exact Hx.
-      + apply reach_mono with (E' := Gb true ++ X) (S' := union L (gclose N)) in Hx;
+      + apply reach_mono with (E' := Gb true ++ as_rules X) (S' := union L (gclose N)) in Hx;
           [|intros e He; apply in_or_app; left; exact He|auto].
         eapply reach_trans; [|exact Hx]. intros y Hy. apply In_union in Hy. destruct Hy as [Hy|Hy].
         * apply reach_base. apply in_or_app. left. exact Hy.
@@ -153,7 +175,7 @@ Section ClassifyProofs.
   Qed.
 
   Theorem classify_sound b L N g :
-    In g (classify gclose X b L N) -> reach (Gb b ++ X) (L ++ N) g.
+    In g (classify gclose X b L N) -> reach (Gb b ++ as_rules X) (L ++ N) g.
   Proof.
     rewrite classify_unfold. generalize (start_sound b L N). generalize (start b L N) as T.
     induction (length X) as [|k IH]; intros T HT; cbn [iterate]; [apply HT|].
@@ -232,39 +254,46 @@ Section ClassifyProofs.
 
     Lemma complete_from T L g :
       Gclosed T -> (forall x, In x L -> In x T) ->
-      reach (Gb b ++ X) L g -> In g (iterate (length X) R T).
+      reach (Gb b ++ as_rules X) L g -> In g (iterate (length X) R T).
     Proof.
       intros HG HL H.
       pose proof (stabilises (length X) T HG (filter_length_le _ X)) as Hst.
       pose proof (Gclosed_iterate (length X) T HG) as HGc.
       set (T' := iterate (length X) R T) in *.
-      induction H as [g Hg|a s _ IH Has].
-      - unfold T'. apply iterate_incl. apply HL. exact Hg.
-      - apply in_app_or in Has. destruct Has as [Has|Has].
-        + apply HGc. eapply reach_step; [apply reach_base; exact IH|exact Has].
-        + apply Hst. apply round_one_step. apply In_one_step. exists a. split; assumption.
+      apply H.
+      - intros x Hx. unfold T'. apply iterate_incl. apply HL. exact Hx.
+      - intros ins s Hin Hall. apply in_app_or in Hin. destruct Hin as [Hin|Hin].
+        + apply HGc. apply (reach_step (Gb b) T' ins s Hin). intros a Ha. apply reach_base. apply Hall. exact Ha.
+        + apply as_rules_inv in Hin. destruct Hin as [a [-> Hab]].
+          apply Hst. apply round_one_step. apply In_one_step. exists a. split; [apply Hall; left; reflexivity|exact Hab].
     Qed.
   End Complete.
 
-  Lemma reach_empty E x : ~ reach E [] x.
-  Proof. intro H. induction H as [? Hc|? ? _ IH _]; [destruct Hc|exact IH]. Qed.
+  (* a GSUB rule has at least one input glyph *)
+  Hypothesis G_inputs : forall ins b, In (ins, b) G -> ins <> [].
+
+  Lemma reach_empty x : ~ reach G [] x.
+  Proof.
+    intro H. apply (H (fun _ => False)); [intros ? []|]. intros ins b Hin Hall.
+    destruct ins as [|a ins']; [exact (G_inputs _ _ Hin eq_refl)|]. exact (Hall a (or_introl eq_refl)).
+  Qed.
 
   Lemma start_true_char L y : In y (classify_gsub gclose L []) <-> reach G L y.
   Proof.
     rewrite In_classify_gsub. split.
     - intros [H|[H _]]; [apply reach_base; exact H|]. eapply reach_mono; [| |exact H]; [auto|].
       intros z Hz. apply In_union in Hz. destruct Hz as [Hz|Hz]; [exact Hz|].
-      apply gclose_spec in Hz. destruct (reach_empty _ _ Hz).
+      apply gclose_spec in Hz. destruct (reach_empty _ Hz).
     - intro H. destruct (in_dec str_eq_dec y L) as [Hl|Hl]; [left; exact Hl|right]. split; [|apply reach_empty].
       eapply reach_mono; [| |exact H]; [auto|]. intros z Hz. apply In_union. left. exact Hz.
   Qed.
 
   Theorem classify_complete b L g :
-    reach (Gb b ++ X) L g -> In g (classify gclose X b L []).
+    reach (Gb b ++ as_rules X) L g -> In g (classify gclose X b L []).
   Proof.
     intro H. rewrite classify_unfold.
     assert (forall x, ~ In x (nprime b [])) as Hn.
-    { intros x Hx. unfold nprime in Hx. destruct b; [|exact Hx]. apply gclose_spec in Hx. destruct (reach_empty _ _ Hx). }
+    { intros x Hx. unfold nprime in Hx. destruct b; [|exact Hx]. apply gclose_spec in Hx. destruct (reach_empty _ Hx). }
     apply (complete_from b (nprime b []) Hn (start b L []) L g); [| |exact H].
     - intros x Hx. unfold start in *. destruct b.
       + apply start_true_char. eapply reach_trans; [|exact Hx]. intros y Hy. apply start_true_char. exact Hy.
@@ -274,7 +303,7 @@ Section ClassifyProofs.
 
   (* soundness and completeness together: with no neutral glyphs, classified = reachable through GSUB and rule substitutions *)
   Corollary classify_is_reachability b L g :
-    In g (classify gclose X b L []) <-> reach (Gb b ++ X) L g.
+    In g (classify gclose X b L []) <-> reach (Gb b ++ as_rules X) L g.
   Proof.
     split; [|apply classify_complete]. intro H. apply classify_sound in H. rewrite app_nil_r in H. exact H.
   Qed.
@@ -302,10 +331,19 @@ Qed.
    replayed on the implementation by the check's "rule-then-gsub" cells) *)
 Example classify_once_incomplete_refuted :
   let n := [1%Z] in let n_alt := [2%Z] in let n_alt_sc := [3%Z] in
-  let G := [(n_alt, n_alt_sc)] in let X := [(n, n_alt)] in
-  reach (G ++ X) [n] n_alt_sc /\ mem n_alt_sc (classify_once (closure G) X true [n] []) = false /\
+  let G : list rule := [([n_alt], n_alt_sc)] in let X := [(n, n_alt)] in
+  reach (G ++ as_rules X) [n] n_alt_sc /\ mem n_alt_sc (classify_once (closure G) X true [n] []) = false /\
   mem n_alt_sc (classify (closure G) X true [n] []) = true.
 Proof.
   cbv zeta. split; [|split; vm_compute; reflexivity].
-  eapply reach_step; [eapply reach_step; [apply reach_base; left; reflexivity|]|]; cbn; auto.
+  eapply reach_step1; [eapply reach_step1; [apply reach_base; left; reflexivity|]|]; cbn; auto.
 Qed.
+
+(* a ligature of a left-to-right letter and a neutral glyph (f + hyphen -> f_hyphen) is reached only when the closure starts
+   from the letters TOGETHER WITH the neutral glyphs (what seeded change C18-sub5 drops) *)
+Example neutral_glyphs_take_part_in_the_closure :
+  let f := [1%Z] in let hyphen := [2%Z] in let f_hyphen := [3%Z] in
+  let G : list rule := [([f; hyphen], f_hyphen)] in
+  mem f_hyphen (classify (closure G) [] true [f] [hyphen]) = true /\
+  mem f_hyphen (closure G [f]) = false.
+Proof. vm_compute. split; reflexivity. Qed.
